@@ -58,8 +58,8 @@ def batches(ctx):
     ]
 
 
-OPS = ["glyfshift", "compbase", "hmtx", "vmtx", "headflags", "cmap", "name", "os2", "deltable", "opaque", "subset", "scale", "reorder", "instantiate", "cffwidth"]
-SMALL_OPS = ["glyfshift", "compbase", "hmtx", "vmtx", "headflags", "cmap", "name", "os2", "opaque"]
+OPS = ["glyfshift", "compbase", "cffshift", "hmtx", "vmtx", "headflags", "cmap", "name", "os2", "deltable", "opaque", "subset", "scale", "reorder", "instantiate", "cffwidth"]
+SMALL_OPS = ["glyfshift", "compbase", "cffshift", "hmtx", "vmtx", "headflags", "cmap", "name", "os2", "opaque"]
 VERTICAL = ["ttx:" + p for p in ("cffLib/data/TestSparseCFF2VF.ttx", "subset/data/NotdefWidthCID-Regular.ttx", "subset/data/NotoSansCJKjp-Regular.subset.ttx", "subset/data/TestCID-Regular.ttx", "subset/data/harfbuzz_repacker.ttx", "ttLib/tables/data/NotoColorEmoji.subset.index_format_3.ttx", "ttLib/tables/data/_v_h_e_a_recalc_OTF.ttx", "ttLib/tables/data/_v_h_e_a_recalc_TTF.ttx")]
 
 
@@ -130,7 +130,7 @@ def generate(ctx, batch, idx):
             rops = []
             for _ in range(r.choice([0, 0, 1, 2])):
                 rops.append([r.choice(SMALL_OPS), {"k": r.randrange(1 << 16), "seed": r.randrange(1 << 30), "tag": "ZZZZ", "n": 4}])
-            h["resave"] = {"cfg": _cfg(r), "full": r.random() < 0.6, "ops": rops}
+            h["resave"] = {"cfg": _cfg(r), "full": r.random() < 0.6, "ops": rops, "same": r.random() < 0.4}
         return h
     if batch == "pipe":
         from props import c16_pipes
@@ -280,7 +280,13 @@ def exec_save(ctx, h, scratch):
         # what a file carries over from its previous container (head.flags bit 11, loca format,
         # table order, padding) meets the next writer
         try:
-            font2 = TTFont(io.BytesIO(out), lazy=rs["cfg"]["lazy"], recalcBBoxes=rs["cfg"]["recalcBBoxes"], recalcTimestamp=False)
+            if rs.get("same"):
+                # ... or the same object is edited further and saved again (what the first save computed and
+                # kept must not stand in for what the second one has to compute)
+                font2 = font
+                probes["resave.same_object"] = 1
+            else:
+                font2 = TTFont(io.BytesIO(out), lazy=rs["cfg"]["lazy"], recalcBBoxes=rs["cfg"]["recalcBBoxes"], recalcTimestamp=False)
             if rs["full"]:
                 font2.ensureDecompiled()
             for name, a in rs["ops"]:
@@ -387,8 +393,31 @@ def _save_and_judge(res, font, cfg, full, h, scratch, stage):
         probes["derived.checked"] = probes.get("derived.checked", 0) + 1
         if derr:
             _fail(res, "derived-field-wrong:" + derr[0].split(" ")[0], "recomputed from the saved data: %s" % derr[:3] + where, field=derr[0].split(" ")[0])
-    if not errs and tabs and "maxp" in tabs and "glyf" in tabs and len(tabs["maxp"]) >= 6:
-        pass
+    # CFF fonts: the font bounding box (head, and the CFF FontBBox it is taken from) against the union of
+    # the glyph bounds of the saved outlines, traced again from the saved file
+    if not errs and kind in ("sfnt", "woff") and full and cfg["recalcBBoxes"] and "CFF " in tabs and "head" in tabs and font.isLoaded("CFF "):
+        try:
+            from fontTools.pens.boundsPen import BoundsPen
+
+            back = TTFont(io.BytesIO(out), lazy=True)
+            gs = back.getGlyphSet()
+            box = None
+            for gn in back.getGlyphOrder():
+                bp = BoundsPen(gs)
+                gs[gn].draw(bp)
+                if bp.bounds is not None:
+                    b_ = bp.bounds
+                    box = b_ if box is None else (min(box[0], b_[0]), min(box[1], b_[1]), max(box[2], b_[2]), max(box[3], b_[3]))
+            import math
+
+            want_box = (0, 0, 0, 0) if box is None else (math.floor(box[0]), math.floor(box[1]), math.ceil(box[2]), math.ceil(box[3]))
+            got_box = struct.unpack_from(">4h", tabs["head"], 36)
+        except Exception:
+            want_box = got_box = None
+        if want_box is not None:
+            probes["derived.cff_bbox_checked"] = probes.get("derived.cff_bbox_checked", 0) + 1
+            if tuple(got_box) != tuple(want_box):
+                _fail(res, "derived-field-wrong:head-bbox-cff", "head bbox %r, the saved CFF outlines give %r" % (tuple(got_box), tuple(want_box)) + where, field="head-bbox-cff")
     # numGlyphs agrees with hmtx/loca whatever was recalculated
     # flavour change changes no table content
     if not res.get("violation") and cfg["flavor"] is not None and full:  # with everything loaded, saving cannot change the loaded set
@@ -648,6 +677,10 @@ def simplify(ctx, h):
         c = copy.deepcopy(h)
         del c["resave"]
         yield c
+        if h["resave"].get("same"):
+            c = copy.deepcopy(h)
+            c["resave"]["same"] = False
+            yield c
         for i in range(len(h["resave"]["ops"])):
             c = copy.deepcopy(h)
             del c["resave"]["ops"][i]
